@@ -103,6 +103,32 @@ func (hsScenario) Shrink(plan interface{}) []interface{} {
 	return out
 }
 
+// Base / Sweep: thorough tier = the fault (freeze or kill, client or server) after every socket operation of the exchange.
+func (hsScenario) Base(plan interface{}) interface{} {
+	b, _ := json.Marshal(plan)
+	var q hsPlan
+	_ = json.Unmarshal(b, &q)
+	q.Fault = nil
+	return &q
+}
+
+func (hsScenario) Sweep(plan interface{}, base *RunRecord) []interface{} {
+	var out []interface{}
+	for proc := 0; proc < 2; proc++ {
+		n := int(base.Counters[fmt.Sprintf("hs.sock_ops_%d", proc)])
+		for k := 0; k <= n; k++ {
+			for _, kind := range []string{"freeze", "kill"} {
+				b, _ := json.Marshal(plan)
+				var q hsPlan
+				_ = json.Unmarshal(b, &q)
+				q.Fault = &hsFault{Proc: proc, K: k, Kind: kind}
+				out = append(out, &q)
+			}
+		}
+	}
+	return out
+}
+
 func (hsScenario) Post(plan interface{}, res *simrt.Result, rec *RunRecord) {
 	rec.Nontrivial = res.Counters["hs.sock_ops"] > 2
 }
@@ -124,6 +150,7 @@ func (hsScenario) Run(s *simrt.Sim, plan interface{}, opts map[string]string) (*
 			if procs[i] == pr {
 				ops[i]++
 				s.Counters["hs.sock_ops"]++
+				s.Counters[fmt.Sprintf("hs.sock_ops_%d", i)]++
 				if f := p.Fault; f != nil && f.Proc == i && ops[i] == f.K+1 && faultAt < 0 {
 					faultAt = simrt.Now()
 					if f.Kind == "kill" {
